@@ -18,8 +18,7 @@ def run():
 
     def go(jit):
         outp = os.path.join(wd, 'ds%d.ndjson' % jit)
-        vlib.sh([exe, '--seed', str(ck.seed), '--tier', ck.tier, '--jit', str(jit), '--out', outp] + (['--full', '1'] if ck.thorough and jit else []), timeout=3000)
-        return [l for l in open(outp).read().splitlines() if l]
+        return vlib.run_harness([exe, '--seed', str(ck.seed), '--tier', ck.tier, '--jit', str(jit), '--out', outp] + (['--full', '1'] if ck.thorough and jit else []), outp, timeout=3000)
     with ThreadPoolExecutor(2) as ex:
         parts = list(ex.map(go, [0, 1]))
     lines = parts[0] + parts[1]
